@@ -21,6 +21,7 @@ import (
 	"golang.org/x/perf/benchstat"
 	"golang.org/x/perf/storage/benchfmt"
 	"pgregory.net/rapid"
+	"verif/harness/lib/refstat"
 	"verif/harness/lib/vcase"
 )
 
@@ -464,6 +465,29 @@ func checkDelta(v *vcase.Verdict, where string, c Case, unit string, row *benchs
 		plib, havePlib = p, true
 		if hasTies(a, b) {
 			v.Label("u_tied_consistency_only")
+			break
+		}
+		if len(a)+len(b) > 64 {
+			// arrangement counts exceed 64 bits: float64 counts, gate only with a margin
+			if len(a) > 50 || len(b) > 50 {
+				// beyond 50 untied values per sample the test is documented to use the
+				// continuity-corrected normal approximation (C11)
+				ones := make([]int, len(a)+len(b))
+				for i := range ones {
+					ones[i] = 1
+				}
+				refP, _ = refstat.NormalApprox(2*uStat(a, b), len(a), len(b), ones, 0)
+				refTol = 1e-9
+				v.Label("p_u_normal_approx")
+			} else {
+				refP, refTol = uTwoSidedFloat(len(a), len(b), uStat(a, b)), 1e-9
+				v.Label("p_u_counted_float")
+			}
+			if refP < alpha-1e-9 {
+				refGate = +1
+			} else if refP > alpha+1e-9 {
+				refGate = -1
+			}
 			break
 		}
 		var counts []uint64
@@ -1139,7 +1163,7 @@ var benchPool = []string{
 	"Foo", "Bar", "Baz/size=10", "Baz/size=200", "Qux-8", "Qux-16", "Enc/json", "Enc/gob",
 	"Alpha", "Zeta", "Mid/size=10-4", "Sort/ints", "Sort/strs-8", "Hash/size=10", "Walk", "Append-4",
 }
-var unitPool = []string{"ns/op", "ns/op", "B/op", "MB/s", "MB/s", "x-ns/op", "widgets/op", "allocs/op"}
+var unitPool = []string{"ns/op", "ns/op", "B/op", "MB/s", "MB/s", "x-ns/op", "widgets/op", "allocs/op", "disk-MB/s", "x-MB/s"}
 
 type plan struct {
 	base   float64
@@ -1149,6 +1173,10 @@ type plan struct {
 	eff    []float64
 	form   int
 	outl   bool
+	// offs, when set, supplies distinct noise offsets (rapid's integer draws repeat small
+	// values far too often for 100 untied samples)
+	offs []int
+	next int
 }
 
 func fmtVal(x float64, form int) string {
@@ -1169,7 +1197,7 @@ func fmtVal(x float64, form int) string {
 
 func Gen(t *rapid.T) Case {
 	var c Case
-	class := rapid.SampledFrom([]string{"small", "small", "medium", "medium", "medium", "medium", "large", "large", "tiny", "wide"}).Draw(t, "class")
+	class := rapid.SampledFrom([]string{"small", "small", "medium", "medium", "medium", "medium", "large", "large", "tiny", "wide", "huge"}).Draw(t, "class")
 	c.Gen = class
 	ncfg := rapid.SampledFrom([]int{2, 2, 2, 2, 2, 2, 1, 3, 3, 4}).Draw(t, "ncfg")
 	nbench := rapid.IntRange(1, 8).Draw(t, "nbench")
@@ -1184,6 +1212,12 @@ func Gen(t *rapid.T) Case {
 			nbench = 4
 		}
 		npkg = 1
+	case "huge":
+		// samples around the exact/approximate switch of the U-test (50 values)
+		nmin, nmax = 49, 51
+		nbench = rapid.IntRange(1, 2).Draw(t, "nbenchhuge")
+		npkg = 1
+		ncfg = 2
 	case "tiny":
 		nmin, nmax = 1, 3
 	case "wide":
@@ -1241,6 +1275,11 @@ func Gen(t *rapid.T) Case {
 				p.base = math.Round(p.base)
 			}
 			p.outl = rapid.IntRange(0, 3).Draw(t, "outl") == 0
+			if class == "huge" && rapid.IntRange(0, 3).Draw(t, "hugeclean") != 0 {
+				// distinct continuous values without outliers: the retained count is the line count
+				p.kind, p.outl, p.form, p.spread = 0, false, 2, rapid.SampledFrom([]float64{0.01, 0.05, 0.3}).Draw(t, "hugespread")
+				p.offs = rapid.Permutation(seq(400)).Draw(t, "hugeoffs")
+			}
 			for ci := 0; ci < ncfg; ci++ {
 				p.eff = append(p.eff, rapid.SampledFrom([]float64{1, 1, 1, 1, 0.5, 0.8, 0.9, 0.97, 0.99, 1.01, 1.03, 1.1, 1.3, 2}).Draw(t, "eff"))
 			}
@@ -1251,6 +1290,11 @@ func Gen(t *rapid.T) Case {
 		var x float64
 		switch p.kind {
 		case 0:
+			if p.offs != nil && p.next < len(p.offs) {
+				x = p.base * p.eff[ci] * (1 + p.spread*float64(p.offs[p.next]-200)/200.5)
+				p.next++
+				break
+			}
 			x = p.base * p.eff[ci] * (1 + p.spread*float64(rapid.IntRange(-100000, 100000).Draw(t, "noise"))/100000)
 		case 1:
 			x = p.base * p.eff[ci]
